@@ -22,6 +22,7 @@ def decodeInput : PyVal → Option Input
   | .list [.str "bytes", .bytes b] => some (.bytes b)
   | .list [.str "date", y, m, d] => do pure (.date (← nat? y) (← nat? m) (← nat? d))
   | .list [.str "datetime", .list fs] => do pure (.datetime (← decodeDt fs))
+  | .list [.str "time", H, M, S, us] => do pure (.time (← nat? H) (← nat? M) (← nat? S) (← nat? us))
   | .list [.str "other"] => some .other
   | _ => none
 
